@@ -14,7 +14,7 @@ rm -rf "$SCRATCH"; mkdir -p "$SCRATCH/repo" "$SCRATCH/verif/evidence" "$SCRATCH/
 rsync -a --exclude target --exclude .git /repo/ "$SCRATCH/repo/"
 if ! (cd "$SCRATCH/repo" && patch -p1 --quiet < "$PATCH"); then echo "PATCH-FAILED $PATCH"; rm -rf "$SCRATCH"; exit 3; fi
 cp "$ROOT/known_findings.json" "$ROOT/properties.jsonl" "$SCRATCH/verif/"
-cp -r "$ROOT/replays/known" "$SCRATCH/verif/replays/" 2>/dev/null
+cp -r "$ROOT/replays/known" "$ROOT/replays/regress" "$SCRATCH/verif/replays/" 2>/dev/null
 name="$(basename "$PATCH" .patch)"
 if [ "${RUN_REPO_TESTS:-0}" = 1 ]; then
 	if (cd "$SCRATCH/repo" && CARGO_TARGET_DIR="$TARGET-repo" cargo test --workspace --no-fail-fast --offline >"$SCRATCH/repotest.log" 2>&1); then
